@@ -188,6 +188,35 @@ pub fn run_jobs(prop: &str, jobs: &[Job], parallel: usize) -> Vec<JobResult> {
     slots.into_iter().map(|m| m.into_inner().unwrap().expect("job result")).collect()
 }
 
+/// Addresses and other long numbers vary from process to process: `0x…` and digit runs of six
+/// or more become `#`.
+fn normalize(s: &str) -> String {
+    let b: Vec<char> = s.chars().collect();
+    let mut out = String::new();
+    let mut i = 0;
+    while i < b.len() {
+        if b[i] == '0' && b.get(i + 1) == Some(&'x') {
+            i += 2;
+            while i < b.len() && b[i].is_ascii_hexdigit() {
+                i += 1;
+            }
+            out.push('#');
+        } else if b[i].is_ascii_digit() {
+            let j = (i..b.len()).find(|k| !b[*k].is_ascii_digit()).unwrap_or(b.len());
+            if j - i >= 6 {
+                out.push('#');
+            } else {
+                out.extend(&b[i..j]);
+            }
+            i = j;
+        } else {
+            out.push(b[i]);
+            i += 1;
+        }
+    }
+    out
+}
+
 /// Stable key of a failure: shape of the model + first line of the message, with the parts that
 /// vary with the schedule (thread lists, addresses) cut off.
 pub fn failure_key(job: &Job, f: &Failure) -> String {
@@ -198,9 +227,7 @@ pub fn failure_key(job: &Job, f: &Failure) -> String {
     if first.starts_with("deadlock") {
         first = "loom: deadlock (a thread blocks forever)".into();
     }
-    if let Some(i) = first.find("0x") {
-        first.truncate(i);
-    }
+    first = normalize(&first);
     let scen = if f.scenario.is_empty() { job.shape.clone() } else { f.scenario.clone() };
     format!("{scen}: {}", first.trim())
 }
@@ -236,7 +263,7 @@ fn investigate(prop: &str, job: &Job, f: &Failure) -> Value {
         ));
     }
     let f2 = parse_failure(&again);
-    if f2.message != f.message || f2.iter != f.iter {
+    if normalize(&f2.message) != normalize(&f.message) || f2.iter != f.iter {
         mcx::machinery_error(&format!(
             "failure of {} reproduced differently (iter {} vs {}, '{}' vs '{}')",
             job.shape, f.iter, f2.iter, f.message, f2.message
